@@ -110,6 +110,34 @@ KERNELS = [
 ]
 
 
+# ---- C03: the 16 symmetry-operation classes of SymmetryOperations_PET_CartesianGrid (3 member functions each).
+# Uniform signatures (unused parameters are simply not referenced by a class that does not store that member):
+#   so_<kind>_bin (view180 axial_pos_shift seg view ax tang tof) : seg × view × ax × tang × tof
+#   so_<kind>_vs  (view180 seg view)                             : seg × view
+#   so_<kind>_img (z_shift q z y x)                              : z × y × x
+SO = "include/stir/recon_buildblock/SymmetryOperations_PET_CartesianGrid"
+SO_KINDS = ["z_shift", "swap_xmx_zq", "swap_xmy_yx_zq", "swap_xy_yx_zq", "swap_xmy_yx", "swap_xy_yx", "swap_xmx", "swap_ymy",
+            "swap_zq", "swap_xmx_ymy_zq", "swap_xy_ymx_zq", "swap_xy_ymx", "swap_xmy_ymx", "swap_ymy_zq", "swap_xmx_ymy",
+            "swap_xmy_ymx_zq"]
+for _k in SO_KINDS:
+    _common = dict(file=SO + ".inl", header="stir/recon_buildblock/SymmetryOperations_PET_CartesianGrid.h",
+                   cls="SymmetryOperation_PET_CartesianGrid_" + _k, mode="function")
+    KERNELS.append(dict(_common, name="so_%s_bin" % _k, function="transform_bin_coordinates",
+        params=[("view180", "Int"), ("axial_pos_shift", "Int"), ("seg", "Int"), ("view", "Int"), ("ax", "Int"), ("tang", "Int"), ("tof", "Int")],
+        bind={"b.segment_num()": ("state", "b_seg", "Int", "seg"), "b.view_num()": ("state", "b_view", "Int", "view"),
+              "b.axial_pos_num()": ("state", "b_ax", "Int", "ax"), "b.tangential_pos_num()": ("state", "b_tang", "Int", "tang"),
+              "b.timing_pos_num()": ("state", "b_tof", "Int", "tof")},
+        outputs=["b_seg", "b_view", "b_ax", "b_tang", "b_tof"]))
+    KERNELS.append(dict(_common, name="so_%s_vs" % _k, function="transform_view_segment_indices",
+        params=[("view180", "Int"), ("seg", "Int"), ("view", "Int")],
+        bind={"vs.segment_num()": ("state", "vs_seg", "Int", "seg"), "vs.view_num()": ("state", "vs_view", "Int", "view")},
+        outputs=["vs_seg", "vs_view"]))
+    KERNELS.append(dict(_common, name="so_%s_img" % _k, function="transform_image_coordinates",
+        params=[("z_shift", "Int"), ("q", "Int"), ("z", "Int"), ("y", "Int"), ("x", "Int")],
+        bind={"c[1]": ("state", "c_z", "Int", "z"), "c[2]": ("state", "c_y", "Int", "y"), "c[3]": ("state", "c_x", "Int", "x")},
+        outputs=["c_z", "c_y", "c_x"]))
+
+
 class Reject(Exception):
     """the kernel leaves the supported subset / cannot be located"""
 
@@ -657,7 +685,14 @@ class Translator:
             if self.spec["mode"] != "function":
                 self.reject(n, "`return` inside a kernel that is a fragment of a function")
             if not ch:
-                self.reject(n, "`return` without value")
+                # `return;` of a void function: the result is the tuple of the bound state variables
+                if "$return" in self.spec["outputs"]:
+                    self.reject(n, "`return` without value")
+                line = pad + "return " + self.ret_tuple(None)
+                self.assigned = ALL
+                return [line]
+            if "$return" not in self.spec["outputs"]:
+                self.reject(n, "`return <value>` in a kernel whose contract has no `$return` output")
             rv = self.conv(self.expr(ch[0]), self.spec["ret"])
             line = pad + "return " + self.ret_tuple(rv)
             self.assigned = ALL
@@ -694,7 +729,9 @@ class Translator:
         code = self.stmts(nodes, 1)
         if self.spec["mode"] == "function":
             if self.assigned is not ALL:
-                raise Reject("kernel %s: control may reach the end of the function without `return`" % self.spec["name"])
+                if "$return" in self.spec["outputs"]:
+                    raise Reject("kernel %s: control may reach the end of the function without `return`" % self.spec["name"])
+                code.append("  return " + self.ret_tuple(None))   # void function: falls off the end
         else:
             code.append("  return " + self.ret_tuple(None))
         hoist = ["  let %s : %s := %s  -- const local of the enclosing function (line %s)" % (nm, ty, tx, ln) for nm, ty, tx, ln in self.hoisted]
